@@ -1216,6 +1216,22 @@ def c08(tier, seed):
                     "meta": {"prop": "C08", "n": total, "tasks": tasks, "cancel_ms": cancel or 0, "delay_ms": delay},
                     "steps": steps})
         n += 1
+    # every stream's preamble arrives in two pieces with a datagram in between (the driver has other things
+    # to do while a preamble is incomplete): still each stream exactly once
+    for role in ("server", "client"):
+        for total in (9, 24):
+            n_uni, n_bi = total - total // 3, total // 3
+            budget = 6000 + total * 60
+            steps = [step("peer", "open_n", tag="ou", kind="uni", n=n_uni, sid=v62(0), ms=25000, split=True),
+                     step("peer", "open_n", tag="ob", kind="bi", n=n_bi, sid=v62(0), ms=25000, split=True),
+                     step("app", "spawn", op="accept_n_uni", tag="au", n=n_uni, ms=budget),
+                     step("app", "spawn", op="accept_n_bi", tag="ab", n=n_bi, ms=budget),
+                     step("peer", "await", tag="ou", ms=30000), step("peer", "await", tag="ob", ms=30000),
+                     step("app", "await", tag="au", ms=budget + 2000), step("app", "await", tag="ab", ms=budget + 2000)]
+            out.append({"scn": "C08-%04d" % n, "role": role, "peer": "raw",
+                        "meta": {"prop": "C08", "n": total, "tasks": 1, "split": True, "cancel_ms": 0, "delay_ms": 0},
+                        "steps": steps})
+            n += 1
     # accept futures polled exactly once and dropped when not ready, then reissued (cancel safety)
     once = [(peer, role, total, pause) for peer in ("raw", "wt") for role in ("server", "client")
             for total in (6, 16, 40) for pause in (1, 3)]
